@@ -5,6 +5,7 @@ import (
 	"io"
 	"math"
 	"reflect"
+	"runtime"
 	"sync"
 	"sync/atomic"
 	"time"
@@ -23,7 +24,7 @@ func runC09(c *mon.Ctx) {
 	default:
 		c.Cases(func(i int, r *mon.Rand) {
 			c09Round(c, r)
-			c09BucketRace(c, r.Fork(77))
+			c09BucketRace(c, r.Fork(77), 8)
 		})
 	}
 }
@@ -412,8 +413,8 @@ func c09KidSpec(k int) tally.ValueBuckets {
 // own bucket set, all colliding in the root-wide bucket cache (the cache is
 // empty, so all of them miss at the same moment). Every histogram must
 // deliver under its own bounds. Eight fresh roots per case.
-func c09BucketRace(c *mon.Ctx, r *mon.Rand) {
-	for it := 0; it < 8; it++ {
+func c09BucketRace(c *mon.Ctx, r *mon.Rand, iters int) {
+	for it := 0; it < iters; it++ {
 		cached := r.Bool()
 		var rec *mon.Recorder
 		opts := tally.ScopeOptions{OmitCardinalityMetrics: true}
@@ -440,6 +441,7 @@ func c09BucketRace(c *mon.Ctx, r *mon.Rand) {
 				sp := c09KidSpec(g + 1)
 				atomic.AddInt32(&ready, 1)
 				for atomic.LoadInt32(&ready) < int32(G) {
+					runtime.Gosched()
 				}
 				sc.Histogram("h", sp).RecordValue(11)
 			}(g)
